@@ -197,6 +197,14 @@ Proof.
     apply IH; auto. intros. apply Hok. now right.
 Qed.
 
+(* an assignment by the importer to an unqualified name is accepted / rejected alike after importing and after inlining *)
+Lemma sim_assign : forall a b k v, sim a b -> dotted k = false -> rsim (assign a k v) (assign b k v).
+Proof.
+  intros a b k v H Hk. pose proof H as [Hf Hv Hs Hi Ht He Him Hc Hd Hst Hl]. unfold assign. rewrite (Hv k Hk).
+  destruct (lookup k (vars b)) as [[[|] w]|]; simpl; try reflexivity.
+  constructor; simpl; intros; auto using lookup_bind_congr'.
+Qed.
+
 Lemma sim_mark : forall p a b, sim a b -> sim (mark_loaded p a) (mark_loaded p b).
 Proof. intros p a b []. constructor; simpl; auto. congruence. Qed.
 
